@@ -1,5 +1,6 @@
 import Memterm.Props.C14
 import Memterm.Proofs.SparseStep
+import Memterm.Proofs.SparseKeys
 import Memterm.Spec.C16
 
 /-
@@ -286,6 +287,11 @@ example :
     observes as the dense crop / extend -/
 theorem sparse_resize (ss : Sparse.SScreen) (l c : Option Nat) :
     Sparse.abs (Sparse.resize ss l c) = resize (Sparse.abs ss) l c := Sparse.abs_resize ss l c
+
+/-- after `resize` every row key of the buffer is below the new height and every cell key below the
+    new width: what was cut is gone from the HashMap, not merely out of sight -/
+theorem sparse_resize_keys {ss : Sparse.SScreen} (h : Sparse.KeysIn ss) (hi : Inv (Sparse.abs ss)) (l c : Option Nat) :
+    Sparse.KeysIn (Sparse.resize ss l c) := Sparse.keysIn_resize h hi l c
 
 end C16
 end Memterm
